@@ -16,6 +16,7 @@ import Sourcer.Proofs.OpShape
 import Sourcer.Proofs.FuelMono
 import Sourcer.Proofs.Shift
 import Sourcer.Proofs.Rename
+import Sourcer.Proofs.LengthenSkip
 import Sourcer.Proofs.EnvSubst
 /-
   Property theorems (statements only; proofs are one-liners over Sourcer/Proofs/*).
@@ -414,14 +415,57 @@ theorem C04_skip_maximal (run : PRun) (xs : List Expr) :
     · exact ih _ _ _ h
     · rename_i ha; simp at h; obtain ⟨h1, h2⟩ := h; subst h1 h2; exact ⟨rfl, ha⟩
 
-/-- The lengthening clause of C04 in full generality.  NOT proved (it needs a position-map
-    simulation between the two inputs); it is exercised on the implementation by a metamorphic
-    run only, and C04 is labelled partial for it. -/
-def C04_lengthening_statement : Prop :=
-  ∀ (P : Program) (inp inp' : List Nat) (fuel : Nat) (e : Expr) (v : Val) (p' : Nat),
-    -- `inp'` is `inp` with one more ignorable character inserted into a run that is skipped
-    (∃ pre w post, inp = pre ++ [w] ++ post ∧ inp' = pre ++ [w, w] ++ post) →
-    peg P inp fuel e 0 = some (.ok v p') → ∃ q, peg P inp' fuel e 0 = some (.ok v q)
+/-- **C04, last clause.**  For grammars whose tokens can neither match nor look at ignorable text and
+    that do not look behind, lengthening a run of ignorable text changes no parsed value.  Stated
+    for one step of lengthening - doubling one character `w` of the input (`one pre w post` ↦
+    `dbl pre w post`), longer runs follow by repetition: from the corresponding position
+    (`ins pre.length`: everything behind the doubled character moves by one) every expression has
+    the corresponding outcome - defined together, the same success or failure, the same value with
+    spans and end position moved.  Hypotheses, all explicit: the ignore rule is `Skip` over regular
+    expressions whose matches on the two inputs end at corresponding positions (`IgnoreAlts`);
+    string and byte literals do not contain `w`; token regular expressions neither match nor look
+    at it (`RxStable`: same matches, same matched text); no `Backtrack` (`tokensOk`). -/
+theorem C04_lengthening (P : Program) (pre : List Nat) (w : Nat) (post : List Nat)
+    (okR : Nat → Bool) (ign : Nat) (xs : List Expr)
+    (hign : P.ignored = none ∨ P.ignored = some ign)
+    (hbody : P.rules[ign]? = some (.skip xs))
+    (halts : IgnoreAlts P (one pre w post) (dbl pre w post) (ins pre.length) xs)
+    (hrx : ∀ rx, okR rx = true → RxStable P (one pre w post) (dbl pre w post) (ins pre.length) rx)
+    (hP : ∀ k body, k ≠ ign → P.rules[k]? = some body → tokensOk (litAvoids w) okR (· != w) body = true)
+    (fuel : Nat) (e : Expr) (q : Nat) (he : tokensOk (litAvoids w) okR (· != w) e = true) :
+    peg P (dbl pre w post) fuel e (ins pre.length q) =
+      (peg P (one pre w post) fuel e q).map (mapRes (ins pre.length)) :=
+  peg_lengthen P pre w post okR ign xs hign hbody halts hrx hP fuel e q he
+
+/-- the general form behind it (and behind the shift law of C08): re-indexing by any strictly
+    monotone position map under which the tokens are stable -/
+theorem C04_reindexing (P : Program) (inp inp' : List Nat) (φ : Nat → Nat)
+    (okS : List Nat → Bool) (okR okB : Nat → Bool) (ign : Nat)
+    (hst : Stable P inp inp' φ okS okR okB ign)
+    (hP : ∀ k body, k ≠ ign → P.rules[k]? = some body → tokensOk okS okR okB body = true)
+    (fuel : Nat) (e : Expr) (q : Nat) (he : tokensOk okS okR okB e = true) :
+    peg P inp' fuel e (φ q) = (peg P inp fuel e q).map (mapRes φ) :=
+  peg_reindex P inp inp' φ okS okR okB ign hst hP fuel e q he
+
+namespace C04Example
+/-- `ignore / +/` (regex 0 matches a run of blanks), `start = "a" "b"` with skipping after each literal;
+    rule 0 is the ignore rule, rule 1 the start rule -/
+def blanks (inp : List Nat) (p : Nat) : Option Nat :=
+  let run := ((inp.drop p).takeWhile (· == 32)).length
+  if run = 0 then none else some (p + run)
+def prog : Program :=
+  { rules := [.skip [.regex 0 false], .seq [.str [97] true, .str [98] true]], ignored := some 0,
+    matcher := fun _ inp p => blanks inp p, bytesMode := false }
+end C04Example
+
+-- non-vacuity of the conclusion: `a␣b` and `a␣␣b` (the blank at index 1 doubled) give the same value,
+-- end position 3 ↦ 4
+example :
+    peg C04Example.prog (one [97] 32 [98]) 12 (.ref 1) 0 = some (.ok (.list [.str [97], .str [98]]) 3) ∧
+    peg C04Example.prog (dbl [97] 32 [98]) 12 (.ref 1) (ins 1 0) = some (.ok (.list [.str [97], .str [98]]) 4) ∧
+    mapRes (ins 1) (.ok (.list [.str [97], .str [98]]) 3) = .ok (.list [.str [97], .str [98]]) 4 ∧
+    tokensOk (litAvoids 32) (fun _ => false) (· != 32) (.seq [.str [97] true, .str [98] true]) = true := by
+  refine ⟨by rfl, by rfl, by rfl, by decide⟩
 
 -- non-vacuity: `ignore " "+` / `start = "a" "b"`, prepared, on `" a  b "`
 def exRules : List RuleDef :=
